@@ -185,6 +185,16 @@ impl TRd {
         TRd { id, r, cfg: cfg.clone(), dead: false, seekable, nbits: 8 * bytes.len() as u64, ends_with_one, image: std::rc::Rc::new(bytes.to_vec()) }
     }
 
+    /// bits between the reader's position and the end of its data (None: not seekable / dead)
+    pub fn remaining(&mut self) -> Option<u64> {
+        let p = self.pos();
+        if p < 0 {
+            None
+        } else {
+            Some(self.nbits.saturating_sub(p as u64))
+        }
+    }
+
     fn pos(&mut self) -> i64 {
         if self.dead {
             return -1;
